@@ -125,6 +125,38 @@ func (fx *Fx) stdlibCall(st *State, fn *types.Func, recvExpr ast.Expr, call *ast
 	switch name {
 	case "strings.IndexByte":
 		return []Val{fx.indexByte(st, args[0], args[1])}
+	case "slices.Contains":
+		sq, x := args[0], args[1]
+		if !strings.HasPrefix(sq.S, "Seq_") {
+			panic(unsupported("slices.Contains over " + sq.S))
+		}
+		r := fx.d.freshConst("contains", SBool)
+		k := fx.d.freshConst("containsat", SInt)
+		ln := app("len_"+sq.S, sq.X)
+		arr := app("arr_"+sq.S, sq.X)
+		st.assume(implies(r, and(app("<=", "0", k), app("<", k, ln), app("=", app("select", arr, k), x.X))))
+		st.assume(implies(not(r), fmt.Sprintf("(forall ((i Int)) (! (=> (and (<= 0 i) (< i %s)) (not (= (select %s i) %s))) :pattern ((select %s i))))", ln, arr, x.X, arr)))
+		return boolV(r)
+	case "strings.Cut", "strings.Contains", "strings.Index":
+		// separator given as a one-byte ASCII literal: the first occurrence of that byte decides
+		sv, p := args[0], args[1]
+		if p.Lit == nil || len(*p.Lit) != 1 || (*p.Lit)[0] >= 0x80 {
+			panic(unsupported(name + " with a separator that is not a one-byte ASCII literal"))
+		}
+		r := fx.indexByte(st, sv, Val{T: types.Typ[types.Uint8], S: SInt, X: fmt.Sprint((*p.Lit)[0])})
+		found := app(">=", r.X, "0")
+		switch name {
+		case "strings.Contains":
+			return boolV(found)
+		case "strings.Index":
+			return []Val{r}
+		}
+		ln := app("slen", sv.X)
+		return []Val{
+			{T: types.Typ[types.String], S: SStr, X: app("ite", found, app("ssub", sv.X, "0", r.X), sv.X)},
+			{T: types.Typ[types.String], S: SStr, X: app("ite", found, app("ssub", sv.X, app("+", r.X, "1"), ln), "str_empty")},
+			{T: types.Typ[types.Bool], S: SBool, X: found},
+		}
 	case "strings.HasPrefix":
 		s, p := args[0], args[1]
 		if p.Lit == nil {
@@ -279,11 +311,11 @@ func (fx *Fx) stdlibCall(st *State, fn *types.Func, recvExpr ast.Expr, call *ast
 		st.assume(implies(or(app("=", e.X, "nil"), app("=", t.X, "nil")), app("=", b, app("=", e.X, t.X))))
 		st.assume(implies(app("=", e.X, t.X), b))
 		return boolV(b)
-	case "strings.IndexFunc":
+	case "strings.IndexFunc", "strings.ContainsFunc":
 		// only for the predicate "is not an ASCII digit" (every byte of a multi-byte rune is >= 0x80, so bytes decide)
 		lit, _ := ast.Unparen(call.Args[1]).(*ast.FuncLit)
 		if lit == nil || !isNonDigitPredicate(lit) {
-			panic(unsupported("strings.IndexFunc with a predicate other than `r < '0' || r > '9'`"))
+			panic(unsupported(name + " with a predicate other than `r < '0' || r > '9'`"))
 		}
 		sv := args[0]
 		r := fx.d.freshConst("indexfunc", SInt)
@@ -291,6 +323,9 @@ func (fx *Fx) stdlibCall(st *State, fn *types.Func, recvExpr ast.Expr, call *ast
 		st.assume(and(app("<=", "(- 1)", r), app("<", r, app("slen", sv.X))))
 		st.assume(implies(app(">=", r, "0"), not(digit(app("sat", sv.X, r)))))
 		st.assume(fmt.Sprintf("(forall ((i Int)) (! (=> (and (<= 0 i) (< i (ite (>= %s 0) %s (slen %s)))) %s) :pattern ((sat %s i))))", r, r, sv.X, digit(app("sat", sv.X, "i")), sv.X))
+		if name == "strings.ContainsFunc" {
+			return boolV(app(">=", r, "0"))
+		}
 		return []Val{{T: types.Typ[types.Int], S: SInt, X: r}}
 	case "unicode/utf8.DecodeRuneInString":
 		return []Val{fx.freshVal(st, "rune", sig.Results().At(0).Type()), fx.freshVal(st, "size", sig.Results().At(1).Type())}
